@@ -2,9 +2,8 @@ CONSTANTS
   Variant = "code"
   AtomSet = "full"
   MaxAtoms = 3
-  MaxParts = 2
+  MaxParts = 6
   Stride = 1
-INIT Init
-NEXT Next
-INVARIANT Contract
-INVARIANT AbsCommutes
+INIT InitAbs
+NEXT NextAbs
+INVARIANT ContractAbs
